@@ -45,6 +45,14 @@ def op_payload(op, seq):
         return ("ctrl", ("CMD SETFH 0 0 %d %d %d %d\0" % (F3, F3, F4, F4)).encode(), 1)
     if op == "mstune":
         return ("ctrl", ("CMD RXTUNE %d\0" % F1).encode(), 1)
+    if op == "msrssi":
+        return ("ctrl", b"CMD FAKE_RSSI -75 2\0", 1)
+    if op == "mstoa":
+        return ("ctrl", b"CMD FAKE_TOA 50 3\0", 1)
+    if op == "msci":
+        return ("ctrl", b"CMD FAKE_CI 40 4\0", 1)
+    if op == "msta":
+        return ("ctrl", b"CMD SETTA 3\0", 0)
     if op.startswith("msdrop"):
         return ("ctrl", ("CMD FAKE_DROP %s\0" % op[6:].replace("_", " ")).encode(), 1)
     if op.startswith("msmute"):
@@ -64,29 +72,41 @@ PREFIX_MSOFF = [(0, "RXTUNE %d" % F2), (0, "TXTUNE %d" % F1), (1, "RXTUNE %d" % 
 PREFIX_DROP1 = PREFIX + [(1, "FAKE_DROP 1")]
 PREFIX_DROP2P2 = PREFIX + [(1, "FAKE_DROP 2 2")]
 PREFIX_V1DROP1 = PREFIX[:4] + [(1, "SETFORMAT 1")] + PREFIX[4:] + [(1, "FAKE_DROP 1")]
-PREFIXES = {"std": PREFIX, "mshop": PREFIX_MSHOP, "msoff": PREFIX_MSOFF, "drop1": PREFIX_DROP1, "drop2p2": PREFIX_DROP2P2,
+PREFIX_V1 = PREFIX[:4] + [(1, "SETFORMAT 1")] + PREFIX[4:]
+PREFIXES = {"v1": PREFIX_V1, "std": PREFIX, "mshop": PREFIX_MSHOP, "msoff": PREFIX_MSOFF, "drop1": PREFIX_DROP1, "drop2p2": PREFIX_DROP2P2,
             "v1drop1": PREFIX_V1DROP1}
 DRAIN = [("c", 0, b"CMD POWERON\0"), ("t", F + 1), ("t", F + 2)]
 
 
 class Scenario:
-    def __init__(self, ops, queue, start_off=False, prefix="std"):
+    def __init__(self, ops, queue, start_off=False, prefix="std", clock="handler"):
+        """clock: what the clock thread runs - "handler" = Application.clck_handler(F) (the frame handler only) or
+        "ind" = CLCKGen.send_clck_ind() of the started generator (clock indications to the links + the handler);
+        with "ind" a Thread.join() of the generator thread really waits for the clock thread's body."""
         self.ops = ops
         self.queue = queue
         self.start_off = start_off
         self.prefix = prefix
-        self.name = "%s|q=%s%s%s" % ("+".join(ops), queue, "|off" if start_off else "", "" if prefix == "std" else "|" + prefix)
+        self.clock = clock
+        self.name = "%s|q=%s%s%s%s" % ("+".join(ops), queue, "|off" if start_off else "", "" if prefix == "std" else "|" + prefix,
+                                       "" if clock == "handler" else "|" + clock)
         self.defs = trxmodel.std_config()
 
     # -- reference: all sequential orders -----------------------------------------------
     def linearizations(self):
-        """the candidate positions of the tick among the socket operations"""
-        return list(range(len(self.ops) + 1))
+        """the candidate positions of the tick among the socket operations; with clock="ind" a tick is two
+        steps - the clock indications to the links, then the frame handler - and a socket operation may
+        fall between them (a transceiver powered on or off 'during' a frame may or may not get that
+        frame's indication), so candidates are pairs (position of IND step, position of handler step)"""
+        n = len(self.ops)
+        if self.clock == "ind":
+            return [(a, b) for a in range(n + 1) for b in range(a, n + 1)]
+        return list(range(n + 1))
 
     def try_order(self, pos, obs):
         """Replays the reference model with the tick at position `pos` and matches the observation
         phase by phase (the model's drop budget evolves with what was observed).  -> None | reason"""
-        m = trxmodel.RefApp(self.defs, ind_period=0)
+        m = trxmodel.RefApp(self.defs, ind_period=1 if self.clock == "ind" else 0, clck_start=F)
         for i, c in PREFIXES[self.prefix]:
             m.ctrl(i, ("CMD " + c + "\0").encode(), ("127.0.0.1", self.defs[i].ctrl + 100))
         for k, d in enumerate(QUEUES[self.queue]):
@@ -97,14 +117,28 @@ class Scenario:
         out0, stale0 = obs[0]
         replies = []
         seq = list(self.ops)
-        order = seq[:pos] + ["TICK"] + seq[pos:]
+        clck_ports = {d.clck + 100 for d in self.defs if d.clck is not None}
+        if isinstance(pos, tuple):
+            pi, ph = pos
+            order = seq[:pi] + ["IND"] + seq[pi:ph] + ["TICK"] + seq[ph:]
+            m.ind_period = 0
+        else:
+            order = seq[:pos] + ["TICK"] + seq[pos:]
         si = 0
         for o in order:
-            if o == "TICK":
+            if o == "IND":
+                want = ("IND CLOCK %u" % F).encode() + b"\0"
+                e = [trxmodel.Exp(self.defs[i].clck + 100, self.defs[i].addr, [(lambda p, w=want: p == w, None)], "IND CLOCK %d" % F)
+                     for i in m.links]
+                mm = trxmodel.match(e, [x for x in out0 if x[2] in clck_ports], m)
+                if mm:
+                    return mm
+            elif o == "TICK":
                 e, st = self._mtick(m, F)
                 if len(st) != stale0:
                     return "stale %d vs %d" % (stale0, len(st))
-                mm = trxmodel.match(e, [x for x in out0 if x[2] not in ctrl_ports], m) if e is not None else None
+                mm = trxmodel.match(e, [x for x in out0 if x[2] not in ctrl_ports and
+                                        (not isinstance(pos, tuple) or x[2] not in clck_ports)], m) if e is not None else None
                 if mm:
                     return mm
             else:
@@ -117,6 +151,7 @@ class Scenario:
         mm = trxmodel.match(replies, [x for x in out0 if x[2] in ctrl_ports], m)
         if mm:
             return mm
+        m.ind_period = 0          # the drain ticks call the frame handler directly
         for st_, (out, ost) in zip(DRAIN, obs[1:]):
             if st_[0] == "c":
                 e = m.ctrl(st_[1], st_[2], ("127.0.0.1", self.defs[st_[1]].ctrl + 100))
@@ -151,7 +186,7 @@ class Scenario:
         s = sched.Scheduler(frozenset())
         holder["s"] = s
         try:
-            W = AppWorld(self.defs, ind_period=0)
+            W = AppWorld(self.defs, ind_period=1 if self.clock == "ind" else 0, clck_start=F)
         finally:
             world.TrivialLock.lock_factory = None
         W.model = None
@@ -186,14 +221,26 @@ class Scenario:
                 world.pump(app)
 
         def clck_thread():
-            app.clck_handler(F)
+            if self.clock == "ind":
+                if not hasattr(app.clck_gen, "clck_src"):
+                    app.clck_gen.clck_src = F        # generator never started in this scenario: nothing would tick
+                app.clck_gen.send_clck_ind()
+            else:
+                app.clck_handler(F)
 
-        pts = s.execute([sock_thread, clck_thread], choices, first=first)
+        world.FakeThread.on_join = (lambda th: s.join_wait(1)) if self.clock == "ind" else None
+        try:
+            pts = s.execute([sock_thread, clck_thread], choices, first=first)
+        finally:
+            world.FakeThread.on_join = None
         obs = []
         out = fab.reset_out()
         recs = world.capture.reset()
         obs.append((out, sum(1 for lv, msg in recs if "Stale TRXD message" in msg)))
         for st_ in DRAIN:
+            if s.deadlock or s.errors:
+                obs.append(([], 0))       # threads are stuck holding locks / died: nothing more can be driven
+                continue
             if st_[0] == "c":
                 fab.inject(self.defs[st_[1]].ctrl, st_[2], ("127.0.0.1", self.defs[st_[1]].ctrl + 100))
                 world.pump(app)
@@ -214,7 +261,7 @@ class Scenario:
             r = self.try_order(pos, obs)
             if r is None:
                 return None, pos
-            why.append("tick@%d: %s" % (pos, r))
+            why.append("tick@%s: %s" % (pos, r))
         return "not-linearizable", "observation matches no sequential order of the operations: " + " || ".join(why)[:1500]
 
 
@@ -240,10 +287,37 @@ def drop_scenarios(tier):
     out = []
     q = "f,f+1,f+2"
     for prefix in ("drop1", "drop2p2", "v1drop1", "std"):
-        for op in ("msdrop2", "msdrop0", "msdrop1_2", "msmute1", "btsmute1"):
+        for op in ("msdrop2", "msdrop0", "msdrop1_2", "msdrop1_3", "msmute1", "btsmute1"):
             out.append(Scenario([op], q, prefix=prefix))
     out.append(Scenario(["msmute1", "msmute0"], q, prefix="drop1"))
     out.append(Scenario(["msdrop2", "msdrop0"], q, prefix="std"))
+    return out
+
+
+def clock_scenarios(tier):
+    """C12 under schedules: power commands racing one tick of the started clock generator (clock indications
+    to the links + frame handler); POWEROFF of the last running clock owner stops the generator and joins
+    its thread while the tick is in progress."""
+    out = []
+    for q in ("f", "empty"):
+        out.append(Scenario(["off"], q, prefix="msoff", clock="ind"))
+        out.append(Scenario(["msoff", "off"], q, clock="ind"))
+        out.append(Scenario(["off", "msoff"], q, clock="ind"))
+        out.append(Scenario(["off"], q, clock="ind"))
+        out.append(Scenario(["off", "on"], q, prefix="msoff", clock="ind"))
+        out.append(Scenario(["mson"], q, prefix="msoff", clock="ind"))
+        out.append(Scenario(["msoff"], q, clock="ind"))
+    return out
+
+
+def metadata_scenarios(tier):
+    """C10 under schedules: the recipient's simulation parameters are switched on (from their defaults) while the
+    tick forwards a burst to it; every delivered burst must carry either the old or the new values."""
+    out = []
+    q = "f,f+1,f+2"
+    for op in ("msrssi", "mstoa", "msci", "msta"):
+        out.append(Scenario([op], q))
+        out.append(Scenario([op], q, prefix="v1"))
     return out
 
 
@@ -298,7 +372,7 @@ def _run_scenario(arg):
             if len(viol) < 3:
                 viol.append(("%s:sched:%s:%s" % (prop, cls, sc.name),
                              {"sched": True, "scenario": sc.name, "ops": sc.ops, "queue": sc.queue,
-                              "start_off": sc.start_off, "prefix": sc.prefix, "first": first,
+                              "start_off": sc.start_off, "prefix": sc.prefix, "clock": sc.clock, "first": first,
                               "choices": {str(kk): v for kk, v in ch.items()}}, info))
         else:
             outcomes.add(info)
@@ -327,6 +401,12 @@ def run(ctx, family="queue"):
         b_basic, b_other = (2, 1) if ctx.quick else (2, 1)
     elif family == "drop":
         basic, others = [], drop_scenarios(ctx.tier)
+        b_basic, b_other = (1, 1) if ctx.quick else (2, 2)
+    elif family == "clock":
+        basic, others = [], clock_scenarios(ctx.tier)
+        b_basic, b_other = (1, 1) if ctx.quick else (2, 2)
+    elif family == "metadata":
+        basic, others = [], metadata_scenarios(ctx.tier)
         b_basic, b_other = (1, 1) if ctx.quick else (2, 2)
     else:
         basic, others = [], routing_scenarios(ctx.tier)
@@ -380,7 +460,7 @@ def run(ctx, family="queue"):
 
 
 def replay(ctx, case):
-    sc = Scenario(case["ops"], case["queue"], case.get("start_off", False), case.get("prefix", "std"))
+    sc = Scenario(case["ops"], case["queue"], case.get("start_off", False), case.get("prefix", "std"), case.get("clock", "handler"))
     lins = sc.linearizations()
     ch = {int(k): v for k, v in case["choices"].items()}
     sc.execute({}, 0)       # warm-up (see _run_scenario)
